@@ -147,9 +147,9 @@ def convert(m, n, sf, df, se, de, mode, wsel, back, four=False, **kw):
     if disc and (src_f == "brackets" or dst_f == "brackets"):
         return "~"       # not representable (excluded by the precondition)
     s2 = c01.S2 if (src_f != "brackets" and dst_f != "brackets") else c01.S2C
-    sents = [(7, s1), (12, s2)]
+    sents = [(7, s1), (0, s2)]          # the second sentence carries the id 0
     data = _encode(src_f, [(sid if src_f in ("export", "tigerxml") else None, s) for sid, s in sents], se)
-    sids_src = [7, 12] if src_f in ("export", "tigerxml") else [1, 2]
+    sids_src = [7, 0] if src_f in ("export", "tigerxml") else [1, 2]
     if mode == 1:
         stubs.MemFS.dirs.add("corp")
         stubs.MemFS.files["corp/a"] = data
